@@ -73,19 +73,35 @@ template <class Json> struct Pool {
             const std::string& key = r.pick(KEYS);
             if (mp->k == MV::Obj) {
                 switch (r.below(10)) {
-                case 0: case 1: { auto res = jp->insert_or_assign(key, mv_to_json<Json>(val)); MV* e = mp->find(key); bool inserted = e == nullptr; if (e) *e = val; else { mp->o.emplace_back(key, val); model_sort(*mp); }
+                case 0: case 1: {
+                          if (r.chance(1, 3)) {   // hinted overload: any position is a legal hint, the result must not depend on it
+                              size_t hpos = r.below(mp->o.size() + 1); MV* e0 = mp->find(key); if (e0 && r.coin()) { hpos = 0; for (auto& kv : mp->o) { if (kv.first == key) break; ++hpos; } }   // often exactly at the existing member
+                              auto hint = jp->object_range().begin(); std::advance(hint, (long)hpos);
+                              auto it = jp->insert_or_assign(hint, key, mv_to_json<Json>(val)); MV* e = mp->find(key); if (e) *e = val; else { mp->o.emplace_back(key, val); model_sort(*mp); }
+                              if (it == jp->object_range().end() || std::string(it->key()) != key) H.violation(std::string("container/") + name + "/hinted-insert_or_assign-result", J().str("key", key).done());
+                              op = "insert_or_assign(hint) " + key; break; }
+                          auto res = jp->insert_or_assign(key, mv_to_json<Json>(val)); MV* e = mp->find(key); bool inserted = e == nullptr; if (e) *e = val; else { mp->o.emplace_back(key, val); model_sort(*mp); }
                           if (res.second != inserted) H.violation(std::string("container/") + name + "/insert_or_assign-result", J().str("key", key).done()); op = "insert_or_assign " + key; break; }
-                case 2: { auto res = jp->try_emplace(key, mv_to_json<Json>(val)); bool inserted = mp->find(key) == nullptr; if (inserted) { mp->o.emplace_back(key, val); model_sort(*mp); }
+                case 2: {
+                          if (r.chance(1, 3)) {
+                              size_t hpos = r.below(mp->o.size() + 1); MV* e0 = mp->find(key); if (e0 && r.coin()) { hpos = 0; for (auto& kv : mp->o) { if (kv.first == key) break; ++hpos; } }
+                              auto hint = jp->object_range().begin(); std::advance(hint, (long)hpos);
+                              auto it = jp->try_emplace(hint, key, mv_to_json<Json>(val)); bool inserted = mp->find(key) == nullptr; if (inserted) { mp->o.emplace_back(key, val); model_sort(*mp); }
+                              if (it == jp->object_range().end() || std::string(it->key()) != key) H.violation(std::string("container/") + name + "/hinted-try_emplace-result", J().str("key", key).done());
+                              op = "try_emplace(hint) " + key; break; }
+                          auto res = jp->try_emplace(key, mv_to_json<Json>(val)); bool inserted = mp->find(key) == nullptr; if (inserted) { mp->o.emplace_back(key, val); model_sort(*mp); }
                           if (res.second != inserted) H.violation(std::string("container/") + name + "/try_emplace-result", J().str("key", key).done()); op = "try_emplace " + key; break; }
                 case 3: { size_t n = jp->erase(key); bool had = mp->erase(key); if ((n == 1) != had) H.violation(std::string("container/") + name + "/erase-key-result", J().str("key", key).done()); op = "erase-key " + key; break; }
                 case 4: { if (mp->o.empty()) return; size_t k = r.below(mp->o.size()); auto it = jp->object_range().begin(); std::advance(it, (long)k); jp->erase(it); mp->o.erase(mp->o.begin() + (long)k); op = "erase-member-iterator " + std::to_string(k); break; }
                 case 5: { if (mp->o.empty()) return; size_t a = r.below(mp->o.size()), b = a + r.below(mp->o.size() - a + 1); auto f = jp->object_range().begin(); std::advance(f, (long)a); auto l = jp->object_range().begin(); std::advance(l, (long)b); jp->erase(f, l);
                           mp->o.erase(mp->o.begin() + (long)a, mp->o.begin() + (long)b); op = "erase-member-range " + std::to_string(a) + ".." + std::to_string(b); break; }
                 case 6: { MGen g2 = g; MV src = gen_mv(r, g2, 2); if (src.k != MV::Obj) { src = MV::obj(); src.o.emplace_back(key, val); } norm(src); Json js = mv_to_json<Json>(src);
-                          bool upd = r.coin(); bool mv = r.coin();
-                          if (upd) { if (mv) jp->merge_or_update(std::move(js)); else jp->merge_or_update(js); } else { if (mv) jp->merge(std::move(js)); else jp->merge(js); }
+                          bool upd = r.coin(); bool mv = r.coin(); bool hinted = r.chance(1, 3);
+                          if (hinted) { auto hint = jp->object_range().begin(); std::advance(hint, (long)r.below(mp->o.size() + 1));
+                              if (upd) { if (mv) jp->merge_or_update(hint, std::move(js)); else jp->merge_or_update(hint, js); } else { if (mv) jp->merge(hint, std::move(js)); else jp->merge(hint, js); } }
+                          else if (upd) { if (mv) jp->merge_or_update(std::move(js)); else jp->merge_or_update(js); } else { if (mv) jp->merge(std::move(js)); else jp->merge(js); }
                           for (auto& kv : src.o) { MV* e = mp->find(kv.first); if (e) { if (upd) *e = kv.second; } else mp->o.emplace_back(kv.first, kv.second); } model_sort(*mp);
-                          op = std::string(upd ? "merge_or_update" : "merge") + (mv ? "(move)" : "(copy)"); break; }
+                          op = std::string(upd ? "merge_or_update" : "merge") + (hinted ? "(hint)" : "") + (mv ? "(move)" : "(copy)"); break; }
                 case 7: { // lookups
                           const Json& cj = *jp; const MV* e = mp->find(key);
                           bool c1 = cj.contains(key); size_t c2 = cj.count(key); auto it = cj.find(key);
